@@ -245,3 +245,51 @@ Proof.
   exists s', n. split; [exact Hrun|]. pose proof (exposed_legal_inv c rh nets s' SD HL HP') as L.
   destruct HP' as (HR & HI & Hl & _). tauto.
 Qed.
+
+(* ---------- C04 for the closed pass: no cell is written back onto a row its polarity forbids ---------- *)
+Lemma apply_step d o d' : apply_mop d o = Some d' -> step_mop d o = d'.
+Proof. unfold step_mop. intros ->. reflexivity. Qed.
+
+Lemma prims_oinv d : NoDup (map p_id (cells_of d)) -> d_loose d = [] -> forall ops s s',
+  Permutation (map anykey (cells_of d)) (map anykey (cells_of s)) -> row_os (d_rows s) = row_os (d_rows d) -> OInvM s ->
+  (forall c r pr x, In (MPlace c r pr x) ops ->
+     match nth_error (d_rows d) r with Some row => row_allowed (pol_of d c) row | None => false end = true) ->
+  (forall o, In o ops -> match o with MUnplace _ | MPlace _ _ _ _ => True | _ => False end) ->
+  apply_all s ops = Some s' -> OInvM s'.
+Proof.
+  intros ND Hl0. induction ops as [|o ops IH]; intros s s' PK RO HI HA HP; cbn [apply_all]; [intros [= <-]; exact HI|].
+  destruct (apply_mop s o) as [s1|] eqn:A; [|discriminate]. intros At.
+  assert (PK1 : Permutation (map anykey (cells_of d)) (map anykey (cells_of s1))).
+  { eapply perm_trans; [exact PK|]. rewrite <- (apply_step s o s1 A). apply step_keys. }
+  specialize (HP o (or_introl eq_refl)) as Ho. destruct o as [| |c0|c0 r pr x]; try destruct Ho; cbn [apply_mop] in A.
+  - destruct (unplace_oinv s c0 s1 HI A) as [HI1 RO1]. apply (IH s1 s' PK1); [congruence|exact HI1| |intros o' Ho'; apply HP; right; exact Ho'|exact At].
+    intros c r pr x Hin. apply (HA c r pr x). right. exact Hin.
+  - pose proof A as A'. unfold place in A'. destruct (take_loose c0 (d_loose s)) as [[m l']|] eqn:T; [|discriminate]. clear A'.
+    specialize (HA c0 r pr x (or_introl eq_refl)) as Hrow. destruct (nth_error (d_rows d) r) as [row|] eqn:Nd; [|discriminate].
+    destruct (take_loose_id _ _ _ _ T) as [Tin Tid].
+    assert (Hk : In (anykey m) (map anykey (cells_of d))).
+    { apply (Permutation_in _ (Permutation_sym PK)). apply in_map. unfold cells_of. apply in_or_app. right. exact Tin. }
+    apply in_map_iff in Hk as (m0 & Ek & Hm0). unfold anykey in Ek. injection Ek as Eid _ Epol _.
+    assert (Hin0 : in_rows d m0).
+    { unfold cells_of in Hm0. rewrite Hl0, app_nil_r in Hm0. apply in_flat_map in Hm0 as (r0 & H1 & H2). exists r0. tauto. }
+    assert (Ep : pol_of d c0 = p_pol m) by (unfold pol_of; rewrite <- Tid, <- Eid, (cell_of_in d m0 ND Hin0); exact Epol).
+    destruct (place_oinv_gen s c0 r pr x s1 m l' HI T) as (HI1 & _ & RO1); [|exact A|].
+    + intros row' Ns. rewrite (row_allowed_o _ _ _ (row_os_nth _ _ _ _ _ RO Nd Ns)), <- Ep. exact Hrow.
+    + apply (IH s1 s' PK1); [congruence|exact HI1| |intros o' Ho'; apply HP; right; exact Ho'|exact At].
+      intros c r' pr' x' Hin. apply (HA c r' pr' x'). right. exact Hin.
+Qed.
+
+Theorem run_keeps_orientation c rh nets s cs :
+  PInv c rh nets s -> OInvM (ps_d s) -> NoDup cs -> (forall x, In x cs -> held (ps_d s) x = true) ->
+  exists s' n, run s cs = Some (s', n) /\ OInvM (ps_d s').
+Proof.
+  intros HP HOr NDc Hh. destruct (run_returns_minimum c rh nets s cs HP NDc Hh) as (rgs & s' & n & R & Hrun & Hres). cbn zeta in Hres.
+  exists s', n. split; [exact Hrun|]. destruct Hres as (_ & _ & _ & [[E _]|(leaf & Hin & _ & _ & Wb)]); [rewrite E; exact HOr|].
+  destruct HP as (_ & _ & Hl & ND & _). destruct (leaves_shape _ _ _ Hin) as (gps & El & _ & _ & FW).
+  unfold wb in Wb. apply (prims_oinv (ps_d s) ND Hl _ (ps_d s) (ps_d s') (Permutation_refl _) eq_refl HOr) in Wb; [exact Wb| |].
+  - intros c0 r pr x Hm. unfold wb_ops in Hm. apply in_app_or in Hm as [Hm|Hm]; [apply in_map_iff in Hm as (? & E & _); discriminate|].
+    apply in_map_iff in Hm as ([[[c1 r1] p1] x1] & E & Hm). injection E as -> -> -> ->. rewrite El in Hm.
+    exact (leaf_rows_allowed (ps_d s) gps c0 r pr x FW Hm).
+  - intros o Ho. unfold wb_ops in Ho. apply in_app_or in Ho as [Ho|Ho]; apply in_map_iff in Ho as (y & <- & _); [exact I|].
+    destruct y as [[[? ?] ?] ?]. exact I.
+Qed.
